@@ -180,6 +180,11 @@ class pointwise_aggregates {
                 }
             }
 
+            // Every aggregate may turn out to be too small. This leaves nothing
+            // to coarsen to, which is what plain_aggregates reports for a
+            // matrix without strong connections.
+            if (!m) throw error::empty_level();
+
             // Update aggregate count and aggregate ids.
             aggr.count = m;
 
